@@ -185,6 +185,45 @@ def check_case(case, ctx):
                   f"md.model != model_func: {got2.tolist()} vs {got.tolist()}")
 
 
+EPS32 = float(np.finfo(np.float32).eps)
+
+
+def check_case_f32(case, ctx):
+    """The same formulas on a single-precision indentation array ("every indentation array": recorded data may be
+    float32).  The contact point is 0 here, so that depth = -delta is exact in either precision and no cancellation
+    enters the bound; the reference is the mpmath formula at the float32 values, the bound is float32 round-off."""
+    from nanite import model as nmodel
+    _mp()
+    model = case["model"]
+    p = dict(case["params"], contact_point=0.0)
+    if model == "hertz_cone" and p["alpha"] == 90.0:
+        return
+    delta = build_delta(dict(case, params=p)).astype(np.float32)
+    d = -delta.astype(float)
+    incontact = d > 0
+    small = bool(((d > 0) & (d < 2e-7)).any())
+    ctx.note_case(case, nontrivial=bool(incontact.any()), classes=[model + "_f32", "f32_depth_below_eps32" if small
+                                                                   else "f32_depth_above_eps32"])
+    md = nmodel.models_available[model]
+    desc = {"model": model, "dtype": "float32"}
+    kwargs = {k: p[k] for k in md.parameter_keys}
+    din = delta.copy()
+    with ctx.no_raise("model-raises", desc):
+        got = np.asarray(md.module.model_func(din, **kwargs))
+    ctx.check(np.array_equal(din, delta) and din.dtype == np.float32, "model-modifies-input", desc,
+              "float32 delta array changed by model_func")
+    ctx.check(got.shape == delta.shape, "model-shape", desc, f"shape {got.shape} != {delta.shape}")
+    ref = refmodels.force_mp(model, delta.astype(float), p)
+    tol = tolerance(model, p, np.where(incontact, d, 0.0)) / EPS * EPS32 + 1e-37
+    err = np.array([abs(float(r - float(g))) for r, g in zip(ref, got)])
+    ratio = float(np.max(err / tol))
+    ctx.extra["max_f32_err_over_tol"] = max(ctx.extra.get("max_f32_err_over_tol", 0.0), ratio)
+    if ratio > 1:
+        i = int(np.argmax(err / tol))
+        ctx.fail("formula-mismatch", desc,
+                 f"depth={d[i]:.6e} got={float(got[i])!r} ref={float(ref[i])!r} err={err[i]:.3e} tol={tol[i]:.3e}")
+
+
 def check_sphere(case, ctx):
     """(c) truncated series within 1e-4 of max force of the exact implicit solution, depths <= R"""
     from nanite import model as nmodel
@@ -234,6 +273,8 @@ def run(ctx):
     if ctx.shard == 0:
         ctx.direct(check_docs, "docs")
     ctx.hypothesis(st_case(), check_case, ctx.scale(16000, 800000), label="formula")
+    ctx.hypothesis(st_case().map(lambda c: dict(c, f32=True)), check_case_f32, ctx.scale(4000, 200000),
+                   label="formula-f32")
     sph = st.fixed_dictionaries({
         "E": st.floats(1, 6).map(lambda e: 10.0 ** e), "R": st.floats(-7, -4).map(lambda e: 10.0 ** e),
         "nu": st.floats(0.0, 0.5), "dmax": st.one_of(st.floats(0.01, 1.0), st.just(1.0)),
@@ -246,5 +287,7 @@ def replay(case, ctx):
         check_sphere(case, ctx)
     elif case == "docs":
         check_docs(case, ctx)
+    elif case.get("f32"):
+        check_case_f32(case, ctx)
     else:
         check_case(case, ctx)
